@@ -13,8 +13,9 @@ from . import e1
 EXPLANATION = ("Static analysis of structural clauses of C10 over the 16 anchored optimiser units: D1 the only loops that drive doStep()/step() of the optimiser itself are capped by nbEval_ < nbEvalMax_ "
                "(nested optimiser objects run their own capped loop); D2 AbstractOptimizer::init installs the automatic/ignore policy on parameters_ before doInit evaluates anything, the policy loops cover "
                "0..size, copy/assignment re-apply it, and bracketing / line-search helpers called from doInit/doStep receive getParameters() (the policy-wrapped list), never the caller's raw list; D3 in steps that keep a "
-               "backup of the objective's parameters, every return of the stored value reachable after a trial evaluation passes a restore from the backup after the last trial; D4 loop progress. "
-               "NOT decided: descent, value = f(point), convergence, feasibility of each evaluation, bracketing triples (all values of runs); termination of the outward bracketing loops depends on objective values.")
+               "backup of the objective's parameters, every return of the stored value reachable after a trial evaluation passes a restore from the backup after the last trial; D4 loop progress; D5 evaluation-point freshness; D6 evaluation accounting; "
+               "D7 abscissa/value pairing of every move, shift, swap, selection and bracket update of an evaluated point. "
+               "NOT decided: descent, value = f(point) beyond the pairing of transfers, convergence, feasibility of each evaluation, bracketing triples (all values of runs); termination of the outward bracketing loops depends on objective values.")
 
 AO = "bpp::AbstractOptimizer"
 UNITS = ["AbstractOptimizer.cpp", "BfgsMultiDimensions.cpp", "ConjugateGradientMultiDimensions.cpp", "PowellMultiDimensions.cpp", "DownhillSimplexMethod.cpp", "SimpleMultiDimensions.cpp",
@@ -383,6 +384,273 @@ def _d6(chk, fb, fns):
     chk.floor("D6", "nested optimiser runs / line-search helper calls", n, 8)
 
 
+def _transfers(f):
+    """per CFG block, in order: transfers between double lvalues.
+    ('move', target, source, node)                       target = source
+    ('select', target, cond text, src1, src2, node)      target = cond ? src1 : src2
+    ('swap', a, b, node)
+    ('shift', [a1..an], node)                            a1 = a2; a2 = a3; ...  (NumTools::shift)
+    ('eval', value lvalue | None, key, node)             value = func.f(key) (None: the result goes elsewhere)
+    ('set', key, abscissa text, node)                    key[0].setValue(abscissa)
+    ('point', object text, x, f, node)                   object.set(x, f) / setA(x, f) ..."""
+    cfg = f.cfg
+    out = {}
+
+    def lv(n):
+        n = strip(n)
+        if n is not None and n["k"] in ("DeclRefExpr", "MemberExpr") and (n.get("ty") or "").replace("const ", "") == "double":
+            return re.sub(r"^this(\.|->)", "", render(n))
+        return None
+
+    def evalkey(n):
+        n = strip(n)
+        if is_call(n) and n["callee"]["name"] == "f" and len(f.args(n)) == 1 and "obj" in n:
+            return re.sub(r"^this(\.|->)", "", render(f.args(n)[0]))
+        return None
+    # regions: maximal runs of simple statements (expression statements, declarations) that are consecutive children of one
+    # compound statement; a ternary does not end a region (the CFG would split it)
+    regions = []
+
+    def split(n):
+        if n is None:
+            return
+        if n["k"] == "CompoundStmt":
+            run = []
+            for c in kids(n):
+                if c["k"] in ("IfStmt", "ForStmt", "WhileStmt", "DoStmt", "CXXForRangeStmt", "CXXTryStmt", "SwitchStmt", "CompoundStmt", "ReturnStmt", "BreakStmt", "ContinueStmt", "CXXCatchStmt"):
+                    if run:
+                        regions.append(run)
+                    run = []
+                    split(c)
+                else:
+                    run.append(c)
+            if run:
+                regions.append(run)
+            return
+        if n["k"] == "IfStmt":
+            for key in ("then", "else"):
+                if n.get(key) is not None:
+                    c = f.nodes.get(n[key])
+                    if c is not None and c["k"] not in ("CompoundStmt", "IfStmt", "ForStmt", "WhileStmt", "DoStmt", "CXXTryStmt"):
+                        regions.append([c])
+                    else:
+                        split(c)
+            return
+        if n["k"] in ("ForStmt", "WhileStmt", "DoStmt", "CXXForRangeStmt"):
+            c = f.nodes.get(n["body"]) if n.get("body") is not None else None
+            if c is not None and c["k"] != "CompoundStmt" and c["k"] not in ("IfStmt", "ForStmt", "WhileStmt", "DoStmt", "CXXTryStmt"):
+                regions.append([c])
+            else:
+                split(c)
+            return
+        for c in kids(n):
+            if c["k"] in ("CompoundStmt", "CXXCatchStmt", "IfStmt", "ForStmt", "WhileStmt", "DoStmt", "CXXTryStmt", "CXXForRangeStmt"):
+                split(c)
+    split(f.body)
+    for b, stmts in enumerate(regions):
+        evs = []
+        for n0 in stmts:
+            n = strip(n0) if n0["k"] in ("ExprWithCleanups", "ParenExpr") else n0
+            if n is None:
+                continue
+            if n["k"] == "BinaryOperator" and n.get("op") == "=":
+                t, r = lv(kids(n)[0]), strip(kids(n)[1])
+                if t is None:
+                    continue
+                k_ = evalkey(r)
+                if k_ is not None:
+                    evs.append(("eval", t, k_, n))
+                elif r["k"] == "ConditionalOperator" and lv(kids(r)[1]) and lv(kids(r)[2]):
+                    evs.append(("select", t, render(kids(r)[0]), lv(kids(r)[1]), lv(kids(r)[2]), n))
+                elif lv(r):
+                    evs.append(("move", t, lv(r), n))
+                else:
+                    evs.append(("other", t, None, n))
+            elif n["k"] == "DeclStmt":
+                for d in n["decls"]:
+                    if (d.get("ty") or "").replace("const ", "") == "double" and d.get("init") is not None:
+                        r = strip(d["init"])
+                        k_ = evalkey(r)
+                        if k_ is not None:
+                            evs.append(("eval", d["name"], k_, n))
+                        elif r["k"] == "ConditionalOperator" and lv(kids(r)[1]) and lv(kids(r)[2]):
+                            evs.append(("select", d["name"], render(kids(r)[0]), lv(kids(r)[1]), lv(kids(r)[2]), n))
+                        elif lv(r):
+                            evs.append(("move", d["name"], lv(r), n))
+            elif is_call(n):
+                nm = n["callee"]["name"]
+                args = f.args(n)
+                if nm == "setValue" and "obj" in n and len(args) >= 1:
+                    o = render(f.obj(n))
+                    m = re.match(r"^(\w+)\[0\]$", o)
+                    key = m.group(1) if m else ("getParameters()" if re.sub(r"^this(\.|->)", "", o) in ("getParameter_(0)",) else None)
+                    if key:
+                        evs.append(("set", key, re.sub(r"^this(\.|->)", "", render(args[0])), n))
+                elif nm in ("swap",) and len(args) == 2 and lv(args[0]) and lv(args[1]):
+                    evs.append(("swap", lv(args[0]), lv(args[1]), n))
+                elif nm == "shift" and len(args) in (3, 4) and all(lv(a) or evalkey(a) for a in args[:-1]):
+                    items = [lv(a) for a in args[:-1]]
+                    last = lv(args[-1])
+                    k_ = evalkey(args[-1])
+                    evs.append(("shift", items + [last if last else (("@eval", k_) if k_ else None)], n))
+                elif nm in ("set", "setA", "setB", "setC") and len(args) == 2 and "obj" in n and lv(args[0]) and lv(args[1]):
+                    evs.append(("point", render(f.obj(n)) + ("." + nm[-1].lower() if nm != "set" else ""), lv(args[0]), lv(args[1]), n))
+                elif evalkey(n) is not None:
+                    evs.append(("eval", None, evalkey(n), n))
+        out[b] = evs
+    return out
+
+
+def _d7(chk, fb, fns):
+    """abscissa/value pairing: a value variable travels with the point it was computed at.  Pairs are grounded in evaluation
+    events (P[0].setValue(X); F = func.f(P)) and in the two members of a bracket point (E.x, E.f); they are propagated through
+    matching transfers made in one block (x = u next to fx = fu, shift(v, w, x, u) next to shift(fv, fw, fx, fu), swap next to
+    swap).  A block that moves an abscissa from point A while it moves the paired value from a different point B is refuted; a
+    transfer with no counterpart in its block is left undecided"""
+    n_sites = 0
+    for f in fns:
+        tr = _transfers(f)
+        pair = {}           # abscissa -> value
+        conflict = set()
+
+        def learn(x, v):
+            if x is None or v is None or x == v:
+                return False
+            if x in pair and pair[x] != v:
+                conflict.add(x)
+                return False
+            if x not in pair:
+                pair[x] = v
+                return True
+            return False
+        # ground pairs
+        for b, evs in tr.items():
+            last_set = {}
+            for ev in evs:
+                if ev[0] == "set":
+                    last_set[ev[1]] = ev[2]
+                elif ev[0] == "eval" and ev[1] is not None and ev[2] in last_set:
+                    if re.match(r"^[\w\.]+$", last_set[ev[2]]):
+                        learn(last_set[ev[2]], ev[1])
+                elif ev[0] == "shift" and isinstance(ev[1][-1], tuple) and ev[1][-1][1] in last_set and len(ev[1]) >= 2 and ev[1][-2]:
+                    # shift(f1, f2, func.f(P)): the fresh value lands in the last variable
+                    if re.match(r"^[\w\.]+$", last_set[ev[1][-1][1]]):
+                        learn(last_set[ev[1][-1][1]], ev[1][-2])
+        for n in f.all_nodes():
+            if n["k"] == "MemberExpr" and n["member"]["name"] == "x" and (n.get("ty") or "").replace("const ", "") == "double" and not n["member"].get("this"):
+                o = render(kids(n)[0]) if kids(n) else None
+                if o:
+                    learn(o + ".x", o + ".f")
+
+        def moves(evs):
+            """elementary moves of a block: list of (target, source | ('@sel', cond, s1, s2) | ('@eval', key), node)"""
+            out = []
+            for ev in evs:
+                if ev[0] == "move":
+                    out.append((ev[1], ev[2], ev[3]))
+                elif ev[0] == "select":
+                    out.append((ev[1], ("@sel", ev[2], ev[3], ev[4]), ev[5]))
+                elif ev[0] == "shift":
+                    items = ev[1]
+                    for i_ in range(len(items) - 1):
+                        if items[i_] is not None and items[i_ + 1] is not None:
+                            out.append((items[i_], items[i_ + 1] if isinstance(items[i_ + 1], str) else ("@eval", items[i_ + 1][1]), ev[2]))
+                elif ev[0] == "swap":
+                    out.append((ev[1], ev[2], ev[3]))
+                    out.append((ev[2], ev[1], ev[3]))
+                elif ev[0] == "eval" and ev[1] is not None:
+                    out.append((ev[1], ("@eval", ev[2]), ev[3]))
+                elif ev[0] == "other":
+                    out.append((ev[1], ("@expr",), ev[3]))
+            return out
+        # propagate: x-move T <- S with S paired, and a value move FT <- pair[S] in the same block, teaches pair[T] = FT
+        changed = True
+        rounds = 0
+        while changed and rounds < 6:
+            changed = False
+            rounds += 1
+            for b, evs in tr.items():
+                ms = moves(evs)
+                for t, s_, _n in ms:
+                    if isinstance(s_, str) and s_ in pair and s_ not in conflict and t not in pair:
+                        cands = [t2 for t2, s2, _ in ms if isinstance(s2, str) and s2 == pair[s_] and t2 != t]
+                        if len(set(cands)) == 1:
+                            changed |= learn(t, cands[0])
+                    if isinstance(s_, tuple) and s_[0] == "@sel" and t not in pair and s_[2] in pair and s_[3] in pair:
+                        cands = [t2 for t2, s2, _ in ms if isinstance(s2, tuple) and s2[0] == "@sel" and s2[1] == s_[1] and {s2[2], s2[3]} == {pair[s_[2]], pair[s_[3]]} and t2 != t]
+                        if len(set(cands)) == 1:
+                            changed |= learn(t, cands[0])
+        vals = {v: x for x, v in pair.items() if x not in conflict}
+        # check every block
+        for b, evs in tr.items():
+            ms = moves(evs)
+            for t, s_, node in ms:
+                if t not in pair or t in conflict:
+                    continue
+                ft = pair[t]
+                if isinstance(s_, str) and s_ in pair and s_ not in conflict:
+                    want = pair[s_]
+                    got = [s2 for t2, s2, _ in ms if t2 == ft]
+                    con = "pair:%s/%s" % (t, ft)
+                    n_sites += 1
+                    sets_t = [ev for ev in evs if ev[0] == "set" and ev[2] == t]
+                    if any(isinstance(g, str) and g == want for g in got):
+                        chk.proved("D7", f.key, con, f.loc(node), "%s <- %s travels with %s <- %s" % (t, s_, ft, want))
+                    elif sets_t and any(isinstance(g, tuple) and g[0] == "@eval" and g[1] == sets_t[-1][1] for g in got):
+                        chk.proved("D7", f.key, con, f.loc(node), "%s <- %s and its value %s is re-evaluated at %s" % (t, s_, ft, t))
+                    elif any(isinstance(g, str) and g in vals and g != want for g in got):
+                        g = [g for g in got if isinstance(g, str) and g in vals and g != want][0]
+                        chk.refuted("D7", f.key, con, f.loc(node),
+                                    "the abscissa '%s' takes the value of '%s' while its function value '%s' takes '%s', which belongs to the point '%s' (the value of '%s' is '%s'): "
+                                    "the pair no longer describes one evaluated point" % (t, s_, ft, g, vals[g], s_, want),
+                                    witness={"input": "any objective for which the two points differ"})
+                    else:
+                        chk.unknown("D7", f.key, con, f.loc(node), "'%s' is moved from '%s' in this block without a visible move of its value '%s'" % (t, s_, ft))
+                elif isinstance(s_, tuple) and s_[0] == "@sel" and s_[2] in pair and s_[3] in pair:
+                    got = [s2 for t2, s2, _ in ms if t2 == ft and isinstance(s2, tuple) and s2[0] == "@sel" and s2[1] == s_[1]]
+                    con = "pair:%s/%s" % (t, ft)
+                    n_sites += 1
+                    if any(g[2] == pair[s_[2]] and g[3] == pair[s_[3]] for g in got):
+                        chk.proved("D7", f.key, con, f.loc(node), "both selections under '%s' take the same point in each arm" % s_[1][:50])
+                    elif any(g[2] == pair[s_[3]] and g[3] == pair[s_[2]] for g in got):
+                        chk.refuted("D7", f.key, con, f.loc(node),
+                                    "under '%s' the abscissa '%s' is taken from %s / %s but its value '%s' from the other point in each arm: the pair describes a point and the value of the other one" % (
+                                        s_[1][:60], t, s_[2], s_[3], ft),
+                                    witness={"input": "any objective with different values at the two candidate points"})
+                    else:
+                        chk.unknown("D7", f.key, con, f.loc(node), "selection of '%s' without a matching selection of '%s'" % (t, ft))
+            # the converse: a value moved from one point to another while the target's abscissa takes something else
+            for ft, fs, node in ms:
+                if not (isinstance(fs, str) and ft in vals and fs in vals and vals[ft] != vals[fs]):
+                    continue
+                T, S = vals[ft], vals[fs]
+                into_T = [s2 for t2, s2, _ in ms if t2 == T]
+                if S in [x for x in into_T if isinstance(x, str)]:
+                    continue          # the forward rule has judged this pair of moves
+                con = "pair:%s/%s" % (T, ft)
+                n_sites += 1
+                if into_T:
+                    what = into_T[0] if isinstance(into_T[0], str) else ("a newly computed abscissa" if into_T[0][0] == "@expr" else "a fresh evaluation")
+                    chk.refuted("D7", f.key, con, f.loc(node),
+                                "the value '%s' takes '%s' (the value at '%s') while its abscissa '%s' takes %s in the same straight-line region: the pair no longer describes one evaluated point" % (ft, fs, S, T, what),
+                                witness={"input": "any objective for which the two points differ"})
+                else:
+                    chk.unknown("D7", f.key, con, f.loc(node), "'%s' takes the value of point '%s' but '%s' is not moved in this region" % (ft, S, T))
+            # bracket.setX(x, f): the two arguments must be one point
+            for ev in evs:
+                if ev[0] == "point" and ev[2] in pair and ev[2] not in conflict:
+                    n_sites += 1
+                    con = "point:%s" % ev[1]
+                    if pair[ev[2]] == ev[3]:
+                        chk.proved("D7", f.key, con, f.loc(ev[4]), "(%s, %s) is one evaluated point" % (ev[2], ev[3]))
+                    elif ev[3] in vals:
+                        chk.refuted("D7", f.key, con, f.loc(ev[4]), "the point is set from abscissa '%s' and value '%s', which is the value at '%s'" % (ev[2], ev[3], vals[ev[3]]),
+                                    witness={"input": "any objective with different values at the two points"})
+                    else:
+                        chk.unknown("D7", f.key, con, f.loc(ev[4]), "value argument '%s' is not a known function value" % ev[3])
+    chk.floor("D7", "abscissa/value transfers", n_sites, 10)
+
+
 def run(chk, fb, tier):
     chk.rule("D1", "a loop from which doStep()/step() of the same object is reachable has a condition reading nbEval_ and nbEvalMax_; optimize() overriders delegate to the capped loop")
     chk.rule("D2", "init: parameters_ = params, then autoParameter()/ignoreConstraints() under the policy test, then doInit; policy loops cover 0..size; copies re-apply; bracketing/line search get getParameters()")
@@ -398,5 +666,10 @@ def run(chk, fb, tier):
     _d4(chk, fb, fns)
     _d5(chk, fb, fns)
     _d6(chk, fb, fns)
+    from . import copyrule
+    chk.rule("DC", "copy constructor and copy assignment of the optimiser classes copy the same members, agree on clone versus share, re-bind cloned helpers to the new object in both, and reset containers before re-populating them")
+    copyrule.check(chk, fb, "DC", lambda c: "Bpp/Numeric/Function/" in c["file"] and any(c["file"].endswith(u.replace(".cpp", ".h")) for u in UNITS), floor=1)
+    chk.rule("D7", "abscissa/value pairing: pairs grounded in evaluation events and bracket points, propagated through matching transfers of one block; a block that moves an abscissa from one point and the paired value from another is refuted")
+    _d7(chk, fb, fns)
     chk.assume("nested optimiser objects (line search, meta-optimiser components) run their own capped optimize() loop")
     chk.assume("outward bracketing loops terminate for objectives bounded below (value-dependent, not decided)")
